@@ -6,7 +6,14 @@ def main():
     st = common.regenerate_source_tables(force_main=True)
     for n, msg in st["failures"].items():
         print("SETUP: source table %s not generated: %s" % (n, msg))
-    ok, out = common.build_coq(["all"])
+    targets = ["all"]
+    if st["failures"]:
+        # tables whose anchors are lost in the current source: their agreement files cannot be built (see
+        # common.check_source_tables: the group is skipped, the tie falls back to the correspondence)
+        import srctables
+        lostg = set(g for g, names in srctables.groups().items() if any(n in st["failures"] for n in names))
+        targets = [v[:-2] + ".vo" for v in common.gen_coqproject() if not any(v.endswith("Proofs/SrcAgree_%s.v" % g) for g in lostg)]
+    ok, out = common.build_coq(targets)
     print(out[-3000:])
     if not ok:
         print("SETUP: coq build failed")
